@@ -165,9 +165,12 @@ CLAIMED = {
         "entry is filled with the result of its own peak, the centre lies in the window, the height is the maximum of the "
         "window's correlation map attained at the centre, the refined position is within 2 px; the elevation is finite for "
         "every map with >= 4 rows or columns and for every peak (elevation_finite_of_four_rows) and the 2x2 map is the "
-        "machine-checked counterexample. Finiteness of FFT/log themselves is assumed (A-FLOAT). Known finding D13 (NaN "
-        "refined position from a float32 cancellation in the centre-of-mass total on maps with a large pedestal) is "
-        "classified by cause and reported as KNOWN-FINDING.",
+        "machine-checked counterexample. Finiteness of FFT/log themselves is assumed (A-FLOAT). Known finding D13 (of "
+        "C16, seen through C04: BackgroundSubtraction.get_mask(frame.shape) is an all-NaN mask when the negative ring has no "
+        "pixel inside a very small frame, so the full-frame method reports NaN heights there) is "
+        "classified by cause and reported as KNOWN-FINDING. Defect D19 (slicing crop back-end computed the window origin in "
+        "the dtype of the peak array: unsigned peak positions near the top / left edge raised ValueError) was found by this "
+        "check's oracle and repaired (fix: b62e35e).",
         "Lean kernel + standard axioms; translator; A-FLOAT; numba execution modes (JIT / bounds-checked / interpreter) are "
         "exercised by the harness, not modelled.",
         "Lean 4 proof on source-generated definitions + oracle in three numba execution modes",
